@@ -1778,33 +1778,36 @@ class _AnsiSettingPoint:
             'fg_': ColorComponentType.FOREGROUND
         }
 
+        # An optional bracket around the value(s) must be closed by its own counterpart
+        bracket_pairs = (('', ''), ('[', ']'), ('(', ')'))
+
         # rgb(), fg_rgb(), bg_rgb(), or ul_rgb() with 3 distinct values as decimal or hex
-        match = re.search(r'^((?:fg_)?|(?:bg_)|(?:ul_)|(?:dul_))rgb\([\[\()]?\s*(0x)?([0-9a-fA-F]+)\s*,\s*(0x)?([0-9a-fA-F]+)\s*,\s*(0x)?([0-9a-fA-F]+)\s*[\)\]]?\)$', s)
-        if match:
+        match = re.search(r'^((?:fg_)?|(?:bg_)|(?:ul_)|(?:dul_))rgb\(([\[\(]?)\s*(0x)?([0-9a-fA-F]+)\s*,\s*(0x)?([0-9a-fA-F]+)\s*,\s*(0x)?([0-9a-fA-F]+)\s*([\)\]]?)\)$', s)
+        if match and (match.group(2), match.group(9)) in bracket_pairs:
             try:
-                r = int(match.group(3), 16 if match.group(2) else 10)
-                g = int(match.group(5), 16 if match.group(4) else 10)
-                b = int(match.group(7), 16 if match.group(6) else 10)
+                r = int(match.group(4), 16 if match.group(3) else 10)
+                g = int(match.group(6), 16 if match.group(5) else 10)
+                b = int(match.group(8), 16 if match.group(7) else 10)
             except ValueError:
                 raise ValueError('Invalid rgb value(s)')
             # Get RGB format
             return AnsiFormat.rgb(r, g, b, component_dict.get(match.group(1), ColorComponentType.FOREGROUND))
 
         # rgb(), fg_rgb(), bg_rgb(), or ul_rgb() with 1 value as decimal or hex
-        match = re.search(r'^((?:fg_)?|(?:bg_)|(?:ul_)|(?:dul_))rgb\([\[\()]?\s*(0x)?([0-9a-fA-F]+)\s*[\)\]]?\)$', s)
-        if match:
+        match = re.search(r'^((?:fg_)?|(?:bg_)|(?:ul_)|(?:dul_))rgb\(([\[\(]?)\s*(0x)?([0-9a-fA-F]+)\s*([\)\]]?)\)$', s)
+        if match and (match.group(2), match.group(5)) in bracket_pairs:
             try:
-                rgb = int(match.group(3), 16 if match.group(2) else 10)
+                rgb = int(match.group(4), 16 if match.group(3) else 10)
             except ValueError:
                 raise ValueError('Invalid rgb value')
             # Get RGB format
             return AnsiFormat.rgb(rgb, component=component_dict.get(match.group(1), ColorComponentType.FOREGROUND))
 
         # color256(), fg_color256(), bg_color256(), or ul_color256() with 1 value as decimal or hex
-        match = re.search(r'^((?:fg_)?|(?:bg_)|(?:ul_)|(?:dul_))colou?r256\([\[\()]?\s*(0x)?([0-9a-fA-F]+)\s*[\)\]]?\)$', s)
-        if match:
+        match = re.search(r'^((?:fg_)?|(?:bg_)|(?:ul_)|(?:dul_))colou?r256\(([\[\(]?)\s*(0x)?([0-9a-fA-F]+)\s*([\)\]]?)\)$', s)
+        if match and (match.group(2), match.group(5)) in bracket_pairs:
             try:
-                rgb = int(match.group(3), 16 if match.group(2) else 10)
+                rgb = int(match.group(4), 16 if match.group(3) else 10)
             except ValueError:
                 raise ValueError('Invalid rgb value')
             # Get RGB format
